@@ -117,6 +117,9 @@ pub struct Req {
     /// server application drops every handle of the stream as soon as it has accepted it (no response, no reset call)
     #[serde(default)]
     pub abandon: bool,
+    /// server promises its pushes only after the response head and the first body bytes were queued
+    #[serde(default)]
+    pub push_late: bool,
 }
 
 #[derive(Clone, Debug, Serialize, Deserialize)]
@@ -316,9 +319,11 @@ pub fn gen_pair(tapes: &[Vec<u32>], focus: Focus) -> PairCase {
             req.trailers = None;
         }
         let resp = gen_msg(&mut t, focus, true);
-        // pushes make the h2 server emit promised ids out of order when handlers race (finding F16);
-        // generated only with a single request so that ids are ordered by construction
-        let npush = if push_ok && nreq == 1 && t.chance(1, 3) { 1 + t.below(3) } else { 0 };
+        // pushes make the h2 server emit promised ids out of order when handlers race (recorded finding
+        // C04/promised-id-not-increasing): the cooperative focus generates them only with a single request, where
+        // ids are ordered by construction; the Resets focus also with several requests
+        let multi_ok = nreq == 1 || (focus == Focus::Resets && t.chance(1, 2));
+        let npush = if push_ok && multi_ok && t.chance(1, 3) { 1 + t.below(3) } else { 0 };
         let pushes = (0..npush)
             .map(|_| Push { resp: gen_msg(&mut t, focus, false), status: 200, reader: gen_reader(&mut t, focus), abandon: focus != Focus::Coop && t.chance(1, 6) })
             .collect();
@@ -338,7 +343,15 @@ pub fn gen_pair(tapes: &[Vec<u32>], focus: Focus) -> PairCase {
             clone_handle: t.chance(1, 3),
             then_second: focus != Focus::Resets && t.chance(1, 6),
             abandon: false,
+            push_late: false,
         });
+    }
+    // some servers promise late (after the response head and first body bytes)
+    for r in reqs.iter_mut() {
+        let r: &mut Req = r;
+        if !r.pushes.is_empty() && !r.resp.chunks.is_empty() && t.chance(1, 3) {
+            r.push_late = true;
+        }
     }
     // bound the number of DATA frames: with a window of w bytes a body of n bytes needs ≥ n/w frames
     // (and as many WINDOW_UPDATEs); keep every chunk below ~400 window-fuls
@@ -376,7 +389,7 @@ pub fn gen_pair(tapes: &[Vec<u32>], focus: Focus) -> PairCase {
         }
     }
     if ccfg.max_concurrent == Some(1) && reqs.iter().any(|r| r.pushes.len() > 1) {
-        ccfg.max_concurrent = None; // pushed streams over the client's limit: finding F18
+        ccfg.max_concurrent = None; // pushed streams over the limit are refused (legitimately): not a cooperative exchange
     }
     let mut ops = Vec::new();
     if t.chance(1, 4) {
@@ -484,6 +497,7 @@ pub fn default_req(key: u32) -> Req {
         clone_handle: false,
         then_second: false,
         abandon: false,
+        push_late: false,
     }
 }
 
@@ -743,6 +757,11 @@ async fn read_body(mut rs: RecvStream, reader: Reader, key: u32, side: Side, log
             }
             Some(Err(e)) => {
                 log.push(side, key, Api::RecvErr { op: "data", err: err_info(&e) });
+                if held > 0 {
+                    // an orderly application gives back what it took before it lets go of the stream
+                    let r = rs.flow_control().release_capacity(held);
+                    log.push(side, key, Api::Released { n: held, err: r.err().map(|e| e.to_string()) });
+                }
                 return;
             }
             None => {
@@ -1300,6 +1319,44 @@ async fn cap_app(prog: CapProgram, handles: Vec<server::SendResponse<SegBuf>>, l
     log.push(Side::Server, 0, Api::ConnOp { op: "cap-app done".into() });
 }
 
+/// The pushes of one request: promise, then the pushed response (its body in a task of its own).
+fn do_pushes(respond: &mut server::SendResponse<SegBuf>, r: &Req, key: u32, ctx: &Ctx) {
+    let log = ctx.log.clone();
+    for (n, p) in r.pushes.iter().enumerate() {
+        let pkey = key * 1000 + n as u32;
+        let preq = http::Request::builder().method("GET").uri(format!("https://example.com/p/{}", pkey)).header("x-push", n.to_string()).body(()).unwrap();
+        let mut f = vec![(":method".to_string(), "GET".to_string()), (":uri".into(), preq.uri().to_string())];
+        f.extend(fields_of(preq.headers()));
+        match respond.push_request(preq) {
+            Ok(mut pushed) => {
+                let psid = pushed.stream_id().as_u32();
+                log.push(Side::Server, pkey, Api::SentHead { kind: "push-request", stream: psid, fields: f, eos: false });
+                if p.abandon {
+                    log.push(Side::Server, pkey, Api::DroppedSend);
+                    drop(pushed);
+                    continue;
+                }
+                let mut b = http::Response::builder().status(p.status);
+                extra_fields(pkey, &p.resp, b.headers_mut().unwrap());
+                let resp = b.body(()).unwrap();
+                let mut f = vec![(":status".to_string(), p.status.to_string())];
+                f.extend(fields_of(resp.headers()));
+                let eos = head_eos(&p.resp);
+                match pushed.send_response(resp, eos) {
+                    Ok(st) => {
+                        log.push(Side::Server, pkey, Api::SentHead { kind: "response", stream: psid, fields: f, eos });
+                        if !eos {
+                            ctx.sp.spawn(format!("s-pushbody-{}", pkey), Group::ServerApp, send_body(st, p.resp.clone(), pkey, Side::Server, log.clone(), ctx.sp.clone()));
+                        }
+                    }
+                    Err(e) => log.push(Side::Server, pkey, Api::SendErr { op: "send_response(pushed)", err: err_info(&e) }),
+                }
+            }
+            Err(e) => log.push(Side::Server, pkey, Api::SendErr { op: "push_request", err: err_info(&e) }),
+        }
+    }
+}
+
 async fn server_handler(req: http::Request<RecvStream>, mut respond: server::SendResponse<SegBuf>, script: Option<Req>, key: u32, ctx: Ctx) {
     let log = ctx.log.clone();
     let (parts, body) = req.into_parts();
@@ -1350,38 +1407,10 @@ async fn server_handler(req: http::Request<RecvStream>, mut respond: server::Sen
             Err(e) => log.push(Side::Server, key, Api::SendErr { op: "send_informational", err: err_info(&e) }),
         }
     }
-    for (n, p) in r.pushes.iter().enumerate() {
-        let pkey = key * 1000 + n as u32;
-        let preq = http::Request::builder().method("GET").uri(format!("https://example.com/p/{}", pkey)).header("x-push", n.to_string()).body(()).unwrap();
-        let mut f = vec![(":method".to_string(), "GET".to_string()), (":uri".into(), preq.uri().to_string())];
-        f.extend(fields_of(preq.headers()));
-        match respond.push_request(preq) {
-            Ok(mut pushed) => {
-                let psid = pushed.stream_id().as_u32();
-                log.push(Side::Server, pkey, Api::SentHead { kind: "push-request", stream: psid, fields: f, eos: false });
-                if p.abandon {
-                    log.push(Side::Server, pkey, Api::DroppedSend);
-                    drop(pushed);
-                    continue;
-                }
-                let mut b = http::Response::builder().status(p.status);
-                extra_fields(pkey, &p.resp, b.headers_mut().unwrap());
-                let resp = b.body(()).unwrap();
-                let mut f = vec![(":status".to_string(), p.status.to_string())];
-                f.extend(fields_of(resp.headers()));
-                let eos = head_eos(&p.resp);
-                match pushed.send_response(resp, eos) {
-                    Ok(st) => {
-                        log.push(Side::Server, pkey, Api::SentHead { kind: "response", stream: psid, fields: f, eos });
-                        if !eos {
-                            ctx.sp.spawn(format!("s-pushbody-{}", pkey), Group::ServerApp, send_body(st, p.resp.clone(), pkey, Side::Server, log.clone(), ctx.sp.clone()));
-                        }
-                    }
-                    Err(e) => log.push(Side::Server, pkey, Api::SendErr { op: "send_response(pushed)", err: err_info(&e) }),
-                }
-            }
-            Err(e) => log.push(Side::Server, pkey, Api::SendErr { op: "push_request", err: err_info(&e) }),
-        }
+    // pushes normally precede the response; a late pusher promises only after the response head and the first body
+    // bytes have been queued (the PUSH_PROMISE then waits behind them in the stream's queue)
+    if !r.push_late {
+        do_pushes(&mut respond, &r, key, &ctx);
     }
     if let EndKind::Reset { after: 0, code } = r.resp.end {
         if r.resp.chunks.is_empty() {
@@ -1406,7 +1435,11 @@ async fn server_handler(req: http::Request<RecvStream>, mut respond: server::Sen
         }
         Ok(st) => {
             log.push(Side::Server, key, Api::SentHead { kind: "response", stream: sid, fields: f, eos });
-            if !eos {
+            if r.push_late && !eos {
+                ctx.sp.spawn(format!("s-body-{}", key), Group::ServerApp, send_body(st, r.resp.clone(), key, Side::Server, log.clone(), ctx.sp.clone()));
+                yield_n(2).await;
+                do_pushes(&mut respond, &r, key, &ctx);
+            } else if !eos {
                 send_body(st, r.resp.clone(), key, Side::Server, log.clone(), ctx.sp.clone()).await;
             }
         }
